@@ -456,8 +456,180 @@ def d4_equality(chk: Check) -> None:
                  "before comparison (separators {})".format(seps))
 
 
+def d5_rearm(chk: Check, rid: str = "C08-D5") -> None:
+    """Per-segment parser state that a recorded segment consumed must not
+    leak into the next segment: on every path from a record site to the end
+    of that character's iteration each consumed state variable is assigned
+    again (or is re-initialised by the branch that opens the next bracketed
+    segment, which is where a search's attribute is cleared)."""
+    from sa.flow import Flow
+    prog = chk.prog
+    chk.rule(rid, "every parser state variable consumed by a recorded "
+             "segment is re-armed before the next character is read",
+             floor=9)
+    roles = parser_roles(prog)
+    fi, loop = roles["fi"], roles["loop"]
+    chk.analysed(fi)
+    pre: Dict[str, str] = {}
+    for st in fi.node.body:
+        if st is loop:
+            break
+        for n in ast.walk(st):
+            if isinstance(n, (ast.Assign, ast.AnnAssign)) and \
+                    n.value is not None:
+                t = n.targets[0] if isinstance(n, ast.Assign) else n.target
+                if isinstance(t, ast.Name):
+                    pre.setdefault(t.id, src(n.value))
+    assigned_in_loop = {t.id for n in walk_local(loop)
+                        if isinstance(n, (ast.Assign, ast.AnnAssign,
+                                          ast.AugAssign))
+                        for t in ([n.target] if not isinstance(n, ast.Assign)
+                                  else n.targets)
+                        if isinstance(t, ast.Name)}
+    state_vars = {v for v in pre if v in assigned_in_loop}
+    # the deque the segments are recorded in
+    recs = [n for n in walk_local(loop) if isinstance(n, ast.Call) and
+            isinstance(n.func, ast.Attribute) and n.func.attr == "append"
+            and n.args and isinstance(n.args[0], (ast.Tuple, ast.Call)) and
+            src(n.func.value) in pre and pre[src(n.func.value)] == "deque()"]
+    if len(recs) < 8:
+        raise AnalysisError("only {} segment record sites found".format(
+            len(recs)))
+    # variables re-initialised where a bracketed segment opens
+    opener: Set[str] = set()
+    tvar = _type_var(fi)
+    for n in walk_local(loop):
+        if isinstance(n, ast.If):
+            for blk in (n.body,):
+                if any(isinstance(s, ast.Assign) and
+                       src(s.targets[0]) == tvar and
+                       src(s.value) == "PathSegmentTypes.INDEX"
+                       for s in blk):
+                    for s in blk:
+                        if isinstance(s, ast.Assign) and \
+                                isinstance(s.targets[0], ast.Name) and \
+                                pre.get(s.targets[0].id) == src(s.value):
+                            opener.add(s.targets[0].id)
+
+    def reads(call: ast.Call) -> Set[str]:
+        return {x.id for a in call.args for x in ast.walk(a)
+                if isinstance(x, ast.Name) and x.id in state_vars}
+
+    def transfer(stmt: ast.stmt, st, flow):
+        pend = set(st)
+        if isinstance(stmt, (ast.Assign, ast.AnnAssign, ast.AugAssign)):
+            tg = [stmt.target] if not isinstance(stmt, ast.Assign) \
+                else stmt.targets
+            for t in tg:
+                if isinstance(t, ast.Name) and \
+                        not isinstance(stmt, ast.AugAssign):
+                    pend.discard(t.id)
+        for c in ast.walk(stmt):
+            if any(c is r for r in recs):
+                for v in reads(c):
+                    pend.add((v, c.lineno) if False else v)
+        return [frozenset(pend)]
+
+    def branch(test: ast.AST, st, flow):
+        return [st], [st]
+    out = Flow(transfer, branch).run(loop.body, [frozenset()])
+    ends = list(out.fall) + list(out.continues)
+    leaked: Set[str] = set()
+    for e in ends:
+        leaked |= set(e)
+    consumed: Set[str] = set()
+    for r in recs:
+        consumed |= reads(r)
+    for v in sorted(consumed):
+        text = "state `{}` (initially {})".format(v, pre[v])
+        if v not in leaked:
+            chk.ok(rid, fi, loop, text,
+                   "assigned again on every path from each record site to "
+                   "the end of the iteration")
+        elif v in opener:
+            chk.ok(rid, fi, loop, text,
+                   "re-initialised by the branch that opens the next "
+                   "bracketed segment")
+        else:
+            chk.fail(rid, fi, loop, text,
+                     "a recorded segment consumes `{}` and some path to the "
+                     "next character leaves it set: the next segment "
+                     "inherits it".format(v))
+    for r in recs:
+        chk.ok(rid, fi, r, "record @{}".format(r.lineno),
+               "consumes {}".format(sorted(reads(r))), False)
+
+
+def d6_append(chk: Check) -> None:
+    """append(): the branch that *replaces* the path text by the bare
+    segment is taken exactly when the text is empty.  A non-empty text with
+    zero segments ("/") fixes the notation; replacing it loses the leading
+    separator and the new text is re-inferred as dot notation."""
+    prog = chk.prog
+    chk.rule("C08-D6", "YAMLPath.append replaces the text only when it is "
+             "empty and otherwise joins with the path's own separator",
+             floor=2)
+    fi = prog.func("YAMLPath.append")
+    chk.analysed(fi)
+    seg = fi.params()[1]
+    pe = PEval()
+    found = 0
+    for n in walk_local(fi.node):
+        if not isinstance(n, ast.If):
+            continue
+        repl = [s for s in n.body if isinstance(s, ast.Assign) and
+                src(s.value) == seg and
+                isinstance(s.targets[0], ast.Attribute)]
+        join = [s for s in n.orelse if isinstance(s, ast.AugAssign) and
+                isinstance(s.target, ast.Attribute)]
+        if not repl or not join:
+            continue
+        found += 1
+        text = "if " + src(n.test)
+        problems = []
+        for sample in ("", "/", ".", "a", "/a"):
+            env = {}
+            for attr in ("self._original", "self.original"):
+                env[attr] = Const(sample)
+                env["len({})".format(attr)] = Const(len(sample))
+            t = pe.truth(n.test, env)
+            if t is None:
+                problems.append("undecidable for text {!r}".format(sample))
+            elif t != (sample == ""):
+                problems.append("text {!r} {} replaced".format(
+                    sample, "is" if t else "is not"))
+        if problems:
+            chk.fail("C08-D6", fi, n, text,
+                     "the replacing branch does not test the emptiness of "
+                     "the path text: " + "; ".join(problems[:3]))
+        else:
+            chk.ok("C08-D6", fi, n, text,
+                   "true exactly for the empty text (5 samples)")
+        # the join uses the path's own separator (AUTO resolved)
+        j = join[0]
+        names = [x.id for x in sorted(
+            (x for x in ast.walk(j.value) if isinstance(x, ast.Name)
+             and x.id not in ("str", "format")),
+            key=lambda x: (x.lineno, x.col_offset))]
+        lits = [x.value for x in ast.walk(j.value)
+                if isinstance(x, ast.Constant) and isinstance(x.value, str)
+                and x.value.replace("{}", "")]
+        if len(names) == 2 and names[1] == seg and names[0] != seg and \
+                not lits:
+            chk.ok("C08-D6", fi, j, src(j)[:60],
+                   "separator then the new segment")
+        else:
+            chk.fail("C08-D6", fi, j, src(j)[:60],
+                     "the appended text is not <separator><segment>")
+    if not found:
+        raise AnalysisError("replace/join branches of YAMLPath.append not "
+                            "found")
+
+
 def run(chk: Check) -> None:
     d1_automaton(chk)
     d2_stringifier(chk)
     d3_escapes(chk)
     d4_equality(chk)
+    d5_rearm(chk)
+    d6_append(chk)
